@@ -736,3 +736,30 @@ Proof.
       (tsig_rdata (alg_wire (k_alg k)) (v_time v) (v_fudge v) mc (hdr_id msg) (v_error v) [])) H12m) as (_ & _ & _ & E & _).
     exact E.
 Qed.
+
+(* A forwarder may have replaced the message ID (RFC 8945 5.1); neither the
+   octets that go into the digest nor the message handed back depend on the ID
+   the message arrived with: the original ID of the TSIG record is written into
+   the header (T1 remove_tsig_sets_original_id). *)
+Lemma set_id_set_id m x y : 2 <= mlen m -> set_id (set_id m x) y = set_id m y.
+Proof.
+  unfold mlen. intros H. destruct m as [|a [|b r]]; cbn in H; try lia.
+  unfold set_id, drop, be16. reflexivity.
+Qed.
+
+Lemma arcount_set_id m x : 12 <= mlen m -> arcount (set_id m x) = arcount m.
+Proof.
+  intros H. destruct (split12 m H) as (b0&b1&b2&b3&b4&b5&b6&b7&b8&b9&b10&b11&body&->). reflexivity.
+Qed.
+
+Theorem forwarded_id_irrelevant m x t : 12 <= mlen m ->
+  remove_tsig (set_id m x) t = remove_tsig m t /\
+  (forall out, remove_tsig m t = Ok out -> hdr_id out = mt_oid t \/ 65536 <= mt_oid t).
+Proof.
+  intros H. split.
+  - unfold remove_tsig. rewrite arcount_set_id by exact H. rewrite set_id_set_id by lia. reflexivity.
+  - intros out Ho. unfold remove_tsig in Ho. destruct (arcount m =? 0); [discriminate|]. injection Ho as <-.
+    destruct (N.lt_ge_cases (mt_oid t) 65536) as [Hl|Hl]; [left|right; exact Hl].
+    destruct (split12 m H) as (b0&b1&b2&b3&b4&b5&b6&b7&b8&b9&b10&b11&body&->).
+    unfold set_arcount, set_id, take, drop, hdr_id, byte_at, be16, of_be16. cbn [firstn skipn app nth]. lia.
+Qed.
